@@ -53,4 +53,8 @@ PROPS = {
                                           {"name": "mt", "test": "TestStreamMt", "cases": 6, "ops": 50, "thorough_scale": 12}],
             "assumptions": COMMON_ASSUME,
             "explanation": "`failed_msg_unchanged` (every message kind), the one swallowed-error path leaves exactly receipt+ack, `nft_error_ack_no_ownership_effect`; oracle: raw KV dump of tibc/NFT/MT/nft/mt stores identical before/after every failed message; error-ack leaves token state unchanged."},
+    "C15": {"level": "proof", "streams": [{"name": "auth", "test": "TestStreamAuth", "cases": 6, "ops": 100, "thorough_scale": 15}],
+            "assumptions": ["the SDK guarantees that a message's declared signer / authority signed the transaction (the stream calls the real message-server handlers with every authority string; non-authority signers also through real signed transactions for MsgUpdateClient)",
+                            "stateless Validate() of client states is an input flag of the model (its fields are outside the model)"],
+            "explanation": "authority / relayer gates as theorems per handler, `create_never_overwrites`, `refused_unchanged`, `type_preserved` over all histories of user-reachable operations; correspondence: message type x signer x payload matrix on the real msg server with registry dump; oracles: took-effect-for-non-authority, unregistered relayer, refused-changed-state (raw KV dump)."},
 }
